@@ -355,3 +355,25 @@ pub fn generic(rng: &mut impl RngCore, valid: &[u8], other: &[u8]) -> (&'static 
         }
     }
 }
+
+/// The canonical 172-byte evaluation-domain header for a domain of 2^log
+/// points, computed from the field's published constants: size (u64 LE),
+/// log2 size (u32 LE), size as a field element, its inverse, the primitive
+/// root of unity of that order, its inverse, and the inverse of the coset
+/// generator.
+pub fn canonical_domain_header(log: u32) -> Vec<u8> {
+    use dusk_bls12_381::{GENERATOR, ROOT_OF_UNITY, TWO_ADACITY};
+    let size = 1u64 << log;
+    let mut g = ROOT_OF_UNITY;
+    for _ in log..TWO_ADACITY {
+        g = g.square();
+    }
+    let sf = BlsScalar::from(size);
+    let mut out = Vec::with_capacity(172);
+    out.extend_from_slice(&size.to_le_bytes());
+    out.extend_from_slice(&log.to_le_bytes());
+    for x in [sf, sf.invert().unwrap(), g, g.invert().unwrap(), GENERATOR.invert().unwrap()] {
+        out.extend_from_slice(&x.to_bytes());
+    }
+    out
+}
